@@ -10,6 +10,7 @@ import (
 	"sort"
 	"strings"
 	"testing"
+	"time"
 
 	"github.com/gagliardetto/solana-go"
 	old_faithful_grpc "github.com/rpcpool/yellowstone-faithful/old-faithful-proto/old-faithful-grpc"
@@ -97,9 +98,9 @@ func c19Truth(eps ...*vEpoch) ([]c19Tx, []uint64) {
 }
 
 type c19Filter struct {
-	Vote, Failed           int // 0 absent, 1 true, 2 false
-	Include, Exclude, Req  int // bit masks over the universe
-	NoFilter               bool
+	Vote, Failed          int // 0 absent, 1 true, 2 false
+	Include, Exclude, Req int // bit masks over the universe
+	NoFilter              bool
 }
 
 func c19Accounts(mask, n int) []string {
@@ -194,6 +195,7 @@ func c19Key(f c19Filter) string {
 func TestVerif_C19(t *testing.T) {
 	silenceKlog()
 	R := vkit.New("C19")
+	vkRequestWatchdog = 120 * time.Second // a request that never returns is a finding, not a worker timeout
 	defer R.Finish()
 	base := vkBase("c19")
 	defer os.RemoveAll(base)
